@@ -5,7 +5,7 @@
 From Coq Require Import List ZArith Lia Bool Arith.
 Import ListNotations.
 Require Import C01.Sums C01.Batch C01.Tensor C01.OpExpr C01.Model C01.Covered.
-Require Import C01.ProofsBase C01.ProofsAlg C01.ProofsKron C01.ProofsStruct C01.ProofsSize C01.ProofsMain.
+Require Import C01.ProofsBase C01.ProofsAlg C01.ProofsKron C01.ProofsStruct C01.ProofsMore C01.ProofsSize C01.ProofsMain.
 Open Scope Z_scope.
 
 (* ---- congruences of the dense combinators ----------------------------------------------------- *)
@@ -17,12 +17,6 @@ Proof.
   apply andb_true_iff in HP. destruct HP as [HP1 HP2].
   simpl. apply dkron_eq; [|exact HK|apply IH; exact HP2].
   destruct (kronl_shape Ks) as (S1 & _). rewrite S1. apply bcompat_bcast_all; assumption.
-Qed.
-
-Lemma Forall2_shapes l l' : Forall2 BTeq l l' -> map bsh l = map bsh l' /\ map nr l = map nr l' /\ map nc l = map nc l'.
-Proof.
-  induction 1 as [|A A' l l' HA HF (I1 & I2 & I3)]; [auto|]. destruct (BTeq_shape _ _ HA) as (S1 & S2 & S3).
-  simpl. rewrite I1, I2, I3, S1, S2, S3. auto.
 Qed.
 
 Lemma dsuml_eq A l A' l' : Forall2 BTeq (A :: l) (A' :: l') -> dims_as A l = true -> pwc (map bsh (A :: l)) = true ->
@@ -43,43 +37,6 @@ Proof.
       + destruct HBin as [<-|HBl]; [exact Hj|]. unfold dims_as in HD. rewrite forallb_forall in HD. specialize (HD B HBl). bsplit. lia.
     - apply IH. intros C HC. apply Hin. right. exact HC. }
   apply (HG (A :: l) (A' :: l') HF). auto.
-Qed.
-
-Lemma dscale_eq A A' c : A == A' -> dscale A c == dscale A' c.
-Proof.
-  intros (e1 & e2 & e3 & e4). unfold dscale. repeat split; simpl; try assumption.
-  intros I i j HI Hi Hj. rewrite e4 by assumption. reflexivity.
-Qed.
-
-Lemma dblockdiag_eq A A' : A == A' -> dblockdiag A == dblockdiag A'.
-Proof.
-  intros (e1 & e2 & e3 & e4). unfold dblockdiag. rewrite <- e1, <- e2, <- e3.
-  destruct (bsh A) as [|k bs] eqn:HS; [apply BTeq_refl|].
-  repeat split; simpl. intros I i j HI Hi Hj.
-  destruct (Nat.eqb_spec (i / nr A) (j / nc A)); [|reflexivity].
-  destruct (Nat.eq_dec (nr A) 0) as [Z|Z]; [rewrite Z in Hi; lia|].
-  destruct (Nat.eq_dec (nc A) 0) as [Z'|Z']; [rewrite Z' in Hj; lia|].
-  apply e4; [simpl; split; [apply div_lt_mul; exact Hi|exact HI]
-            |apply Nat.mod_upper_bound; exact Z|apply Nat.mod_upper_bound; exact Z'].
-Qed.
-
-Lemma dblockinter_eq A A' : A == A' -> dblockinter A == dblockinter A'.
-Proof.
-  intros (e1 & e2 & e3 & e4). unfold dblockinter. rewrite <- e1, <- e2, <- e3.
-  destruct (bsh A) as [|k bs] eqn:HS; [apply BTeq_refl|].
-  repeat split; simpl. intros I i j HI Hi Hj.
-  destruct (Nat.eqb_spec (i mod k) (j mod k)); [|reflexivity].
-  destruct (Nat.eq_dec k 0) as [Z|Z]; [rewrite Z in Hi; lia|].
-  apply e4; [simpl; split; [apply Nat.mod_upper_bound; exact Z|exact HI]
-            |apply div_lt_mul; exact Hi|apply div_lt_mul; exact Hj].
-Qed.
-
-Lemma dsumbatch_eq A A' : A == A' -> dsumbatch A == dsumbatch A'.
-Proof.
-  intros (e1 & e2 & e3 & e4). unfold dsumbatch. rewrite <- e1, <- e2, <- e3.
-  destruct (bsh A) as [|k bs] eqn:HS; [apply BTeq_refl|].
-  repeat split; simpl. intros I i j HI Hi Hj. apply zsum_ext. intros b Hb.
-  apply e4; [simpl; split; assumption|assumption|assumption].
 Qed.
 
 (* ---- _transpose_nonbatch -------------------------------------------------------------------------- *)
@@ -166,6 +123,60 @@ Proof.
   - change (denote (tr x) :: map denote (map tr ops)) with (map denote (map tr (x :: ops))). rewrite E1. exact HP.
 Qed.
 
+Lemma krondiag_sym ops : wf (KronDiag ops) -> denote (KronDiag ops) == dtr (denote (KronDiag ops)).
+Proof.
+  intros HW. destruct (diagv_correct (KronDiag ops) HW eq_refl) as [HK _].
+  eapply BTeq_trans; [exact HK|]. eapply BTeq_trans; [apply BTeq_sym; apply dtr_ddiag|]. apply dtr_eq. apply BTeq_sym. exact HK.
+Qed.
+
+Lemma cat_tr_rows x ops :
+  Forall tr_ok (x :: ops) -> forallb wfb (x :: ops) = true -> forallb coveredb (x :: ops) = true ->
+  forallb (fun y => shape_eqb (bsh (denote y)) (bsh (denote x)) && Nat.eqb (nc (denote y)) (nc (denote x))) ops = true ->
+  forallb wfb (map tr (x :: ops)) = true /\ forallb coveredb (map tr (x :: ops)) = true /\
+  forallb (fun y => shape_eqb (bsh (denote y)) (bsh (denote (tr x))) && Nat.eqb (nr (denote y)) (nr (denote (tr x)))) (map tr ops) = true /\
+  dcat (map denote (map tr (x :: ops))) CatCols == dtr (dcat (map denote (x :: ops)) CatRows).
+Proof.
+  intros HF HW HC HS. destruct (tr_list (x :: ops) HF HW HC) as (L1 & L2 & L3).
+  destruct (tr_list_shapes (x :: ops) L3) as (E1 & E2).
+  assert (HS' : forall y, In y (x :: ops) -> bsh (denote y) = bsh (denote x) /\ nc (denote y) = nc (denote x)).
+  { intros y [<-|Hy]; [auto|]. rewrite forallb_forall in HS. specialize (HS y Hy). bsplit. auto. }
+  split; [exact L1|]. split; [exact L2|]. split.
+  - rewrite forallb_map. rewrite forallb_forall. intros y Hy.
+    destruct (E2 y (or_intror Hy)) as (a1 & a2 & a3). destruct (E2 x (or_introl eq_refl)) as (b1 & b2 & b3).
+    destruct (HS' y (or_intror Hy)) as [c1 c2]. rewrite a1, a3, b1, b3, c1, c2.
+    apply andb_true_iff; split; [apply shape_eqb_eq; reflexivity|apply Nat.eqb_refl].
+  - change (map denote (map tr (x :: ops))) with (denote (tr x) :: map denote (map tr ops)).
+    eapply BTeq_trans; [apply (dcat_cols_eq _ _ (dtr (denote x)) (map dtr (map denote ops))); [exact L3|]|apply BTeq_sym; apply (dtr_dcat_rows (denote x) (map denote ops))].
+    intros C HCin. change (denote (tr x) :: map denote (map tr ops)) with (map denote (map tr (x :: ops))) in HCin.
+    rewrite map_map in HCin. apply in_map_iff in HCin. destruct HCin as [y [<- Hy]].
+    destruct (E2 y Hy) as (a1 & a2 & a3). destruct (E2 x (or_introl eq_refl)) as (b1 & b2 & b3). destruct (HS' y Hy) as [c1 c2].
+    split; congruence.
+Qed.
+
+Lemma cat_tr_cols x ops :
+  Forall tr_ok (x :: ops) -> forallb wfb (x :: ops) = true -> forallb coveredb (x :: ops) = true ->
+  forallb (fun y => shape_eqb (bsh (denote y)) (bsh (denote x)) && Nat.eqb (nr (denote y)) (nr (denote x))) ops = true ->
+  forallb wfb (map tr (x :: ops)) = true /\ forallb coveredb (map tr (x :: ops)) = true /\
+  forallb (fun y => shape_eqb (bsh (denote y)) (bsh (denote (tr x))) && Nat.eqb (nc (denote y)) (nc (denote (tr x)))) (map tr ops) = true /\
+  dcat (map denote (map tr (x :: ops))) CatRows == dtr (dcat (map denote (x :: ops)) CatCols).
+Proof.
+  intros HF HW HC HS. destruct (tr_list (x :: ops) HF HW HC) as (L1 & L2 & L3).
+  destruct (tr_list_shapes (x :: ops) L3) as (E1 & E2).
+  assert (HS' : forall y, In y (x :: ops) -> bsh (denote y) = bsh (denote x) /\ nr (denote y) = nr (denote x)).
+  { intros y [<-|Hy]; [auto|]. rewrite forallb_forall in HS. specialize (HS y Hy). bsplit. auto. }
+  split; [exact L1|]. split; [exact L2|]. split.
+  - rewrite forallb_map. rewrite forallb_forall. intros y Hy.
+    destruct (E2 y (or_intror Hy)) as (a1 & a2 & a3). destruct (E2 x (or_introl eq_refl)) as (b1 & b2 & b3).
+    destruct (HS' y (or_intror Hy)) as [c1 c2]. rewrite a2, a3, b2, b3, c1, c2.
+    apply andb_true_iff; split; [apply shape_eqb_eq; reflexivity|apply Nat.eqb_refl].
+  - change (map denote (map tr (x :: ops))) with (denote (tr x) :: map denote (map tr ops)).
+    eapply BTeq_trans; [apply (dcat_rows_eq _ _ (dtr (denote x)) (map dtr (map denote ops))); [exact L3|]|apply BTeq_sym; apply (dtr_dcat_cols (denote x) (map denote ops))].
+    intros C HCin. change (denote (tr x) :: map denote (map tr ops)) with (map denote (map tr (x :: ops))) in HCin.
+    rewrite map_map in HCin. apply in_map_iff in HCin. destruct HCin as [y [<- Hy]].
+    destruct (E2 y Hy) as (a1 & a2 & a3). destruct (E2 x (or_introl eq_refl)) as (b1 & b2 & b3). destruct (HS' y Hy) as [c1 c2].
+    split; congruence.
+Qed.
+
 Ltac trih :=
   repeat match goal with
          | IH : tr_ok ?e, HW : wfb ?e = true, HC : coveredb ?e = true |- _ =>
@@ -219,6 +230,10 @@ Proof.
     assert (HT : forallb is_triangular_cls (map tr ops) = true).
     { rewrite forallb_map. rewrite forallb_forall in *. intros x Hx. destruct (tr_cls x) as (_ & _ & _ & E & _). rewrite E. auto. }
     rewrite HT. tsplit; [reflexivity|reflexivity|exact K5].
+  - (* KronDiag *) rewrite pw_fix_pwc in *.
+    tsplit; [|simpl; assumption|apply krondiag_sym].
+    + unfold wf. simpl. rewrite pw_fix_pwc. repeat (apply andb_true_iff; split); assumption.
+    + unfold wf. simpl. rewrite pw_fix_pwc. repeat (apply andb_true_iff; split); assumption.
   - (* KronAddedDiag *)
     destruct (tr_cls e1) as (_ & CK & _). destruct (tr_cls e2) as (CD & _).
     tsplit; [wfsolve|wfsolve|simpl; apply tr_two; assumption].
@@ -256,6 +271,29 @@ Proof.
     tsplit; [wfsolve|wfsolve|]. simpl. eapply BTeq_trans; [apply dblockinter_eq; exact TD|apply BTeq_sym; apply dtr_dblockinter].
   - (* SumBatch *)
     tsplit; [wfsolve|wfsolve|]. simpl. eapply BTeq_trans; [apply dsumbatch_eq; exact TD|apply BTeq_sym; apply dtr_dsumbatch].
+  - (* Cat *) destruct ops as [|x ops]; [discriminate|]. destruct ops as [|x2 ops]; [discriminate|].
+    destruct d; try discriminate.
+    + destruct (cat_tr_rows x (x2 :: ops)) as (K1 & K2 & K3 & K4); try assumption.
+      unfold wf, covered. cbn [tr wfb coveredb denote]. cbn [map] in *. rewrite K1, K2, K3. tsplit; [reflexivity|reflexivity|exact K4].
+    + destruct (cat_tr_cols x (x2 :: ops)) as (K1 & K2 & K3 & K4); try assumption.
+      unfold wf, covered. cbn [tr wfb coveredb denote]. cbn [map] in *. rewrite K1, K2, K3. tsplit; [reflexivity|reflexivity|exact K4].
+  - (* Interpolated *)
+    tsplit; [|assumption|].
+    + unfold wf. simpl. rwshapes. repeat (apply andb_true_iff; split); try assumption; try (apply shape_eqb_eq; congruence);
+        try (apply Nat.eqb_eq; congruence); congruence.
+    + simpl. rewrite SR, SC.
+      set (K := denote e) in *. set (Wl := dinterp li lv (nr K)). set (Wr := dinterp ri rv (nc K)).
+      assert (B1 : bsh Wr = bsh Wl) by (unfold Wl, Wr; simpl; assumption).
+      assert (B2 : bsub (bsh K) (bsh Wl) = true) by (unfold Wl; simpl; assumption).
+      assert (HCk : bcompat (bsh K) (bsh Wl) = true) by (apply bsub_bcompat; exact B2).
+      eapply BTeq_trans; [|apply BTeq_sym; apply dtr_interp; try reflexivity; assumption].
+      apply dmm_eq_r; [change (bcompat (bsh Wr) (bcast (bsh (denote (tr e))) (bsh Wl)) = true);
+                       rewrite SB, B1, (bsub_bcast_eq _ _ B2); apply bcompat_refl|exact SR|].
+      apply dmm_eq_l; [change (bcompat (bsh (denote (tr e))) (bsh Wl) = true); rewrite SB; exact HCk|exact TD].
+  - (* Masked *)
+    tsplit; [wfsolve|wfsolve|]. simpl.
+    eapply BTeq_trans; [apply dmask_eq; [congruence|congruence|exact TD]|apply BTeq_sym; apply dtr_dmask].
+  - (* TransposePermutation *) tsplit; [assumption|reflexivity|]. apply BTeq_sym. apply dtr_dtransperm.
   - (* Kernel *)
     tsplit; [wfsolve|reflexivity|]. 
     + rewrite bcompat_sym. assumption.
@@ -275,15 +313,35 @@ Proof.
   simpl mt. apply dmm_eq_l; [rewrite S1; exact H2|exact TD].
 Qed.
 
+(* the public matmul (class overrides included) acts as the denoted matrix *)
+Theorem pub_correct e : wf e -> covered e -> acts (pub_matmul e) (denote e).
+Proof.
+  induction e using OpExpr_ind'; intros HW HC; try exact (mm_correct _ HW HC false).
+  unfold wf, covered in HW, HC. simpl in HW, HC. bsplit.
+  specialize (IHe H HC). cbn [pub_matmul denote]. rewrite (sz_correct e H). unfold shp, sz_n. cbn [snd].
+  set (K := denote e) in *. set (Wl := dinterp li lv (nr K)). set (Wr := dinterp ri rv (nc K)).
+  assert (B1 : bsh Wr = bsh Wl) by (unfold Wl, Wr; simpl; assumption).
+  assert (B2 : bsub (bsh K) (bsh Wl) = true) by (unfold Wl; simpl; assumption).
+  assert (HCk : bcompat (bsh K) (bsh Wl) = true) by (apply bsub_bcompat; exact B2).
+  apply (acts_comp (interp_gather li lv) (fun X => pub_matmul e (fr (interp_scatter ri rv X (nc K)))) Wl (dmm K (dtr Wr))).
+  - apply interp_gather_correct; assumption.
+  - apply (acts_comp (pub_matmul e) (fun X => interp_scatter ri rv X (nc K)) K (dtr Wr) IHe).
+    + apply interp_scatter_correct. congruence.
+    + reflexivity.
+    + change (bcompat (bsh K) (bsh Wr) = true). rewrite B1. exact HCk.
+  - reflexivity.
+  - change (bcompat (bsh Wl) (bcast (bsh K) (bsh Wr)) = true). rewrite B1, (bsub_bcast_eq _ _ B2). apply bcompat_refl.
+Qed.
+
 (* X @ op :  op.mT.matmul(X.mT).mT *)
 Theorem rmatmul_correct e Y : wf e -> covered e -> nc Y = nr (denote e) -> bcompat (bsh Y) (bsh (denote e)) = true ->
   pub_rmatmul e Y == dmm Y (denote e).
 Proof.
   intros HW HC HN HB. destruct (tr_correct e HW HC) as (TW & TC & TD). destruct (tr_shape e TD) as (S1 & S2 & S3).
-  unfold pub_rmatmul, pub_matmul.
+  unfold pub_rmatmul.
   assert (HB' : bcompat (bsh (denote e)) (bsh Y) = true) by (rewrite bcompat_sym; exact HB).
-  assert (H1 : mm false (tr e) (fr (dtr Y)) == dmm (dtr (denote e)) (dtr Y)).
-  { eapply BTeq_trans; [apply (mm_correct (tr e) TW TC false); split; simpl; [congruence|rewrite S1; exact HB']|].
+  assert (H1 : pub_matmul (tr e) (fr (dtr Y)) == dmm (dtr (denote e)) (dtr Y)).
+  { eapply BTeq_trans; [apply (pub_correct (tr e) TW TC); split; simpl; [congruence|rewrite S1; exact HB']|].
     eapply BTeq_trans; [apply dmm_eq_l; [simpl; rewrite S1; exact HB'|exact TD]|].
     apply dmm_eq_r; [exact HB'|simpl; exact HN|apply fr_eq]. }
   eapply BTeq_trans; [apply dtr_eq; exact H1|].
@@ -298,14 +356,12 @@ Proof.
   intros HW HC. unfold default_to_dense. rewrite (sz_correct e HW). unfold shp, sz_b, sz_m, sz_n. simpl.
   destruct (tr_correct e HW HC) as (TW & TC & TD). destruct (tr_shape e TD) as (S1 & S2 & S3).
   destruct (Nat.ltb_spec (nr (denote e)) (nc (denote e))).
-  - unfold pub_matmul.
-    assert (H1 : mm false (tr e) (deye (bsh (denote e)) (nr (denote e))) == dtr (denote e)).
-    { eapply BTeq_trans; [apply (mm_correct (tr e) TW TC false); split; simpl; [congruence|rewrite S1; apply bcompat_refl]|].
+  - assert (H1 : pub_matmul (tr e) (deye (bsh (denote e)) (nr (denote e))) == dtr (denote e)).
+    { eapply BTeq_trans; [apply (pub_correct (tr e) TW TC); split; simpl; [congruence|rewrite S1; apply bcompat_refl]|].
       eapply BTeq_trans; [apply dmm_eq_l; [simpl; rewrite S1; apply bcompat_refl|exact TD]|].
       apply (dmm_eye_r (dtr (denote e))). }
     eapply BTeq_trans; [apply dtr_eq; exact H1|apply dtr_dtr].
-  - unfold pub_matmul.
-    eapply BTeq_trans; [apply (mm_correct e HW HC false); split; simpl; [reflexivity|apply bcompat_refl]|].
+  - eapply BTeq_trans; [apply (pub_correct e HW HC); split; simpl; [reflexivity|apply bcompat_refl]|].
     apply dmm_eye_r.
 Qed.
 
@@ -362,6 +418,9 @@ Proof.
     assert (HR : fr (td e) == denote e) by (apply fr_eq'; exact IHe). destruct (BTeq_shape _ _ HR) as (S1 & S2 & S3).
     eapply BTeq_trans; [apply dmm_eq_l; [change (bsh (dtr (fr (td e)))) with (bsh (fr (td e))); apply bcompat_refl|exact HR]|].
     apply dmm_eq_r; [change (bsh (dtr (fr (td e)))) with (bsh (fr (td e))); rewrite S1; apply bcompat_refl|change (nr (dtr (fr (td e)))) with (nc (fr (td e))); rewrite S3; reflexivity|apply dtr_eq; exact HR].
+  - (* KronDiag *) rewrite pw_fix_pwc in *.
+    assert (HWk : wf (KronDiag ops)) by (unfold wf; simpl; rewrite pw_fix_pwc; repeat (apply andb_true_iff; split); assumption).
+    destruct (diagv_correct (KronDiag ops) HWk eq_refl) as [HK _]. apply BTeq_sym. exact HK.
   - (* KronAddedDiag *) simpl. apply td_two; [apply IHe1; assumption|apply IHe2; assumption|assumption..].
   - (* SumKron *) simpl. apply td_two; [apply IHe1; assumption|apply IHe2; assumption|assumption..].
   - (* AddedDiag *) simpl. apply td_two; [apply IHe1; assumption|apply IHe2; assumption|assumption..].
@@ -377,8 +436,32 @@ Proof.
     eapply BTeq_trans; [apply dmm_eq_l; [rewrite a1, b1; assumption|exact HL]|].
     apply dmm_eq_r; [rewrite b1; assumption|congruence|exact HR].
   - (* ConstantMul *) simpl. apply dmulc_dscale; [apply IHe; assumption|assumption].
-  - (* BlockDiag *) simpl. match goal with HD : is_diag_cls e = false |- _ => rewrite HD end.
-    apply default_to_dense_correct; unfold wf, covered; simpl; repeat (apply andb_true_iff; split); try assumption;
-      try (apply Nat.eqb_eq; assumption); try (apply negb_true_iff; assumption).
+  - (* BlockDiag *) cbn [td]. destruct (is_diag_cls e) eqn:HD.
+    + destruct (bsh (denote e)) as [|k bs] eqn:HS; [discriminate|].
+      unfold pos in *. repeat match goal with HH : (0 <? _)%nat = true |- _ => apply Nat.ltb_lt in HH end.
+      destruct (diagv_correct e) as [HV HV1]; [assumption|assumption|].
+      destruct (BTeq_shape _ _ HV) as (v1 & v2 & v3). simpl in v1, v2, v3.
+      apply BTeq_sym. simpl denote. eapply BTeq_trans; [apply dblockdiag_eq; exact HV|].
+      apply (flatten_ddiag (diagv e) k bs); congruence.
+    + apply default_to_dense_correct; unfold wf, covered; simpl; repeat (apply andb_true_iff; split); try assumption;
+        try (apply Nat.eqb_eq; assumption).
   - (* SumBatch *) simpl. apply dsumbatch_eq. apply IHe; assumption.
+  - (* Cat *) destruct ops as [|x ops]; [discriminate|]. destruct ops as [|x2 ops]; [discriminate|].
+    assert (HCc : forallb coveredb (x :: x2 :: ops) = true) by (destruct d; try discriminate; assumption).
+    pose proof (td_list _ H H0 HCc) as HL. destruct (Forall2_shapes _ _ HL) as (E1 & E2 & E3).
+    cbn [td denote]. cbn [map] in *.
+    assert (HSh : forall C, In C (td x :: td x2 :: map td ops) -> exists y, In y (x :: x2 :: ops) /\ C = td y).
+    { intros C HCin. change (td x :: td x2 :: map td ops) with (map td (x :: x2 :: ops)) in HCin.
+      apply in_map_iff in HCin. destruct HCin as [y [<- Hy]]. exists y. auto. }
+    assert (HTy : forall y, In y (x :: x2 :: ops) -> bsh (td y) = bsh (denote y) /\ nr (td y) = nr (denote y) /\ nc (td y) = nc (denote y)).
+    { intros y Hy. rewrite Forall_forall in H. apply BTeq_shape. apply (H y Hy); [eapply wfb_all_in; eauto|eapply covered_all_in; eauto]. }
+    destruct d; try discriminate.
+    + apply dcat_rows_eq; [exact HL|]. intros C HCin. destruct (HSh C HCin) as [y [Hy ->]].
+      destruct (HTy y Hy) as (a1 & a2 & a3). destruct (HTy x (or_introl eq_refl)) as (b1 & b2 & b3).
+      destruct Hy as [<-|Hy]; [auto|]. rewrite forallb_forall in H1. specialize (H1 y Hy). bsplit. split; congruence.
+    + apply dcat_cols_eq; [exact HL|]. intros C HCin. destruct (HSh C HCin) as [y [Hy ->]].
+      destruct (HTy y Hy) as (a1 & a2 & a3). destruct (HTy x (or_introl eq_refl)) as (b1 & b2 & b3).
+      destruct Hy as [<-|Hy]; [auto|]. rewrite forallb_forall in H1. specialize (H1 y Hy). bsplit. split; congruence.
+  - (* Masked *) simpl. specialize (IHe H HC). destruct (BTeq_shape _ _ IHe) as (a1 & a2 & a3).
+    apply dmask_eq; [congruence|congruence|exact IHe].
 Qed.
